@@ -442,6 +442,33 @@ func (ch *child) waitExit(to time.Duration) bool {
 	}
 }
 
+// crashHead: the lines around the first sign of a crash in a child's log (the tail of a goroutine dump does not say why)
+func crashHead(p string) string {
+	b, err := ioutil.ReadFile(p)
+	if err != nil {
+		return ""
+	}
+	txt := string(b)
+	best := -1
+	for _, pat := range []string{"fatal error:", "SIGABRT", "SIGSEGV", "panic:", "terminate called", "Assertion", "pure virtual", "double free", "corrupted"} {
+		if i := strings.Index(txt, pat); i >= 0 && (best < 0 || i < best) {
+			best = i
+		}
+	}
+	if best < 0 {
+		return ""
+	}
+	from := best - 600
+	if from < 0 {
+		from = 0
+	}
+	to := best + 1800
+	if to > len(txt) {
+		to = len(txt)
+	}
+	return "--- first sign of the crash ---\n" + txt[from:to] + "\n--- tail ---\n"
+}
+
 func tailFile(p string, n int) string {
 	b, err := ioutil.ReadFile(p)
 	if err != nil {
@@ -596,8 +623,13 @@ func (pa *portAlloc) get() int {
 }
 
 func isEnvFailure(status, tail string) bool {
-	return strings.Contains(tail, "address already in use") || strings.Contains(status, "address already in use") ||
-		strings.Contains(tail, "too many open files") || strings.Contains(tail, "cannot allocate memory")
+	lt, ls := strings.ToLower(tail), strings.ToLower(status)
+	for _, pat := range []string{"address already in use", "too many open files", "cannot allocate memory", "no space left on device", "disk quota exceeded"} {
+		if strings.Contains(lt, pat) || strings.Contains(ls, pat) {
+			return true
+		}
+	}
+	return false
 }
 
 // slowStatus: the child was alive, logged no recovery error, and did not get to serve within a budget: on its own
@@ -685,7 +717,7 @@ wait:
 		return lv
 	}
 	ch.kill()
-	tail := tailFile(logPath, 6000)
+	tail := crashHead(logPath) + tailFile(logPath, 6000)
 	if startEnv != "" && strings.Contains(tailFile(evlog, 200), "KILL "+strings.Split(startEnv, ":")[0]) {
 		rec.Start = "died-at-startup-point"
 		return lv
@@ -950,7 +982,7 @@ func runDir(self string, job dirJob, pa *portAlloc, emit func(RunRec)) {
 			rec.Death = "external"
 		default:
 			rec.Death = "unexpected-exit"
-			rec.Log = tailFile(lv.ch.logf, 6000)
+			rec.Log = crashHead(lv.ch.logf) + tailFile(lv.ch.logf, 6000)
 			if isEnvFailure("", rec.Log) {
 				rec.Death = "env-exit"
 			}
